@@ -133,39 +133,39 @@ class ChunkedReceiver:
                     s = s[pos + 2 :]
                     self.control_line = b""
 
-                    if line:
-                        # Begin a new chunk.
-                        semi = line.find(b";")
+                    # Begin a new chunk.
+                    semi = line.find(b";")
 
-                        if semi >= 0:
-                            extinfo = line[semi:]
-                            valid_ext_info = CHUNK_EXT_RE.match(extinfo)
+                    if semi >= 0:
+                        extinfo = line[semi:]
+                        valid_ext_info = CHUNK_EXT_RE.match(extinfo)
 
-                            if not valid_ext_info:
-                                self.error = BadRequest("Invalid chunk extension")
-                                self.all_chunks_received = True
-
-                                break
-
-                            line = line[:semi]
-
-                        if not ONLY_HEXDIG_RE.match(line):
-                            self.error = BadRequest("Invalid chunk size")
+                        if not valid_ext_info:
+                            self.error = BadRequest("Invalid chunk extension")
                             self.all_chunks_received = True
 
                             break
 
-                        # Can not fail due to matching against the regular
-                        # expression above
-                        sz = int(line, 16)  # hexadecimal
+                        line = line[:semi]
 
-                        if sz > 0:
-                            # Start a new chunk.
-                            self.chunk_remainder = sz
-                        else:
-                            # Finished chunks.
-                            self.all_chunks_received = True
-                    # else expect a control line.
+                    # An empty line is not a chunk size either: the CRLF that
+                    # ends the chunk data is consumed by validate_chunk_end
+                    if not ONLY_HEXDIG_RE.match(line):
+                        self.error = BadRequest("Invalid chunk size")
+                        self.all_chunks_received = True
+
+                        break
+
+                    # Can not fail due to matching against the regular
+                    # expression above
+                    sz = int(line, 16)  # hexadecimal
+
+                    if sz > 0:
+                        # Start a new chunk.
+                        self.chunk_remainder = sz
+                    else:
+                        # Finished chunks.
+                        self.all_chunks_received = True
             else:
                 # Receive the trailer.
                 trailer = self.trailer + s
